@@ -170,6 +170,8 @@ type Exec struct {
 	wantModel    bool
 	local        *localCtx
 	summaries    int
+	urlParts     map[string][]*Term
+	knownLen     map[string]*Term
 }
 
 type findingRegion struct {
@@ -185,7 +187,7 @@ func (e *Engine) NewExec(solver *Portfolio, decisions []int8) *Exec {
 		contracts: map[string]bool{}, xmlTokens: map[string]*xmlToken{},
 		timeStrs: map[string]*timeStr{}, certs: map[string]*certInfo{},
 		strAttrs: map[string]map[string]bool{}, reqs: map[*Cell]*reqInfo{}, urlInfos: map[*Cell]*urlInfo{},
-		forkSites: map[string]int{}, pcSyms: map[string]bool{}, pcKeys: map[string]bool{}, renders: map[string]*renderInfo{}, sigCtx: map[*Cell]*sigCtxInfo{}, privKeys: map[*Cell]*Term{},
+		urlParts: map[string][]*Term{}, knownLen: map[string]*Term{}, forkSites: map[string]int{}, pcSyms: map[string]bool{}, pcKeys: map[string]bool{}, renders: map[string]*renderInfo{}, sigCtx: map[*Cell]*sigCtxInfo{}, privKeys: map[*Cell]*Term{},
 	}
 }
 
@@ -1358,6 +1360,18 @@ func (x *Exec) slice(fr *frame, i *ssa.Slice) Value {
 		if l < 0 || h < l || h > len(arr.E) {
 			panic(&guestPanic{msg: "slice bounds out of range"})
 		}
+		if isByteSlice(i.Type()) {
+			// []byte{...} literal: an immutable byte string
+			var sb strings.Builder
+			for _, e := range arr.E[l:h] {
+				t, ok := e.(*Term)
+				if !ok || !t.IsConst() {
+					panic(abortf("byte array with symbolic elements"))
+				}
+				sb.WriteByte(byte(t.I))
+			}
+			return &BytesV{T: StrC(sb.String())}
+		}
 		if len(b.Path) != 0 {
 			panic(abortf("slice of interior array"))
 		}
@@ -1643,11 +1657,11 @@ func (x *Exec) builtin(fr *frame, name string, args []Value, site ssa.Instructio
 	case "len":
 		switch a := args[0].(type) {
 		case *Term:
-			return Len(a)
+			return x.lenOf(a)
 		case *SliceV:
 			return IntC(int64(a.Len))
 		case *BytesV:
-			return Len(a.T)
+			return x.lenOf(a.T)
 		case *MapV:
 			if a.M == nil {
 				return IntC(0)
@@ -2052,4 +2066,37 @@ func (x *Exec) trySummarize(fr *frame, fn *ssa.Function, args []Value, env []Val
 	}
 	x.summaries++
 	return r, true
+}
+
+// replayHints are constraints that make a model robust under native replay
+// (DESIGN §3.8): timestamps at least one hour away from every clock reading,
+// all clock readings of the run within one second. They are only used to pick
+// a model, never to decide a verdict.
+func (x *Exec) replayHints() []*Term {
+	const hour = int64(3600) * 1_000_000_000
+	var hs []*Term
+	for _, ts := range x.timeSyms {
+		for _, c := range x.clocks {
+			hs = append(hs, Implies(ts.OK, Or(Le(ts.NS, Sub(c, IntC(hour))), Le(Add(c, IntC(hour)), ts.NS))))
+		}
+		hs = append(hs, Implies(ts.OK, And(Le(IntC(-100*365*24*hour), ts.NS), Le(ts.NS, IntC(100*365*24*hour)))))
+	}
+	if n := len(x.clocks); n > 1 {
+		hs = append(hs, Le(Sub(x.clocks[n-1], x.clocks[0]), IntC(1_000_000_000)))
+	}
+	if len(x.clocks) > 0 {
+		hs = append(hs, Le(x.clocks[0], IntC(hour)))
+	}
+	return hs
+}
+
+// checkModel looks for a replay-robust model first.
+func (x *Exec) checkModel(extra ...*Term) (Result, Model, bool) {
+	if hs := x.replayHints(); len(hs) > 0 {
+		if r, m := x.checkM(append(append([]*Term{}, extra...), hs...)...); r == Sat {
+			return r, m, true
+		}
+	}
+	r, m := x.checkM(extra...)
+	return r, m, false
 }
